@@ -108,7 +108,7 @@ def build(self: Obj("YowStackBuilder")):
 # =====================================================================================================================
 # YowStack: data enters at the top / bottom instance, events start at the bottom / top instance
 # =====================================================================================================================
-fields("YowStack", _YowStack__stackInstances=ListObj, _props=DictStrObj)
+fields("YowStack", _YowStack__stackInstances=ListObj, _YowStack__stack=TupleObj, _props=DictStrObj)
 event_sort("layer.send", "obj")
 event_sort("layer.receive", "obj")
 event_sort("layer.onEvent", "obj")
@@ -343,3 +343,58 @@ def addPostConstructLayer(self: Obj("YowStack"), layer: Opaque("layer")):
     ensures(len(self._YowStack__stackInstances) == len(old(self._YowStack__stackInstances)) + 1
             and same_obj(self._YowStack__stackInstances[len(self._YowStack__stackInstances) - 1], layer)
             and forall(range(0, len(old(self._YowStack__stackInstances))), lambda i: self._YowStack__stackInstances[i] == old(self._YowStack__stackInstances)[i]))
+
+
+# ---- the constructor's assembly step: one instance per entry, wired to its direct neighbours ------------------------------------------
+# What an entry becomes (the entry itself when it is a layer instance, a new instance when it is a layer class, a parallel group for the
+# deprecated tuple form) is decided by inspect.isclass / issubclass / a call of the entry: those are opaque here (unconstrained answers,
+# any exception propagated), so the contract does not say WHICH object is made of an entry - bounded/stack_check.py samples that.
+event_sort("layer.setStack", "obj")
+extern("*.setStack", event="layer.setStack")
+opaque(LAYERS, "YowParallelLayer.setStack", event="layer.setStack", recv_as_arg=True)
+extern("inspect.isclass", event="inspect.isclass", returns=Bool)
+extern("call:callable", returns=Opaque("layer"))
+
+
+@contract(STACK, "YowStack._construct")
+def construct(self: Obj("YowStack")):
+    requires(len(self._YowStack__stackInstances) == 0)
+    modifies(self._YowStack__stackInstances)
+    raises(ValueError, may=True)
+    propagates("YowParallelLayer")
+    propagates("call:callable")
+    # one instance per stack entry, in the order of the entries (bottom first) ...
+    ensures(len(self._YowStack__stackInstances) == len(self._YowStack__stack))
+    # ... each told once which stack it belongs to ...
+    ensures(n_events("layer.setStack") == len(self._YowStack__stack))
+    ensures(forall(range(0, len(self._YowStack__stack)), lambda i: same_obj(event_arg("layer.setStack", i, 0), self._YowStack__stackInstances[i])
+                   and same_obj(event_arg("layer.setStack", i, 1), self)))
+    # ... and each wired, once, to the instance directly above and the one directly below it (None at the two ends)
+    ensures(n_events("layer.setLayers") == len(self._YowStack__stackInstances))
+    ensures(forall(range(0, len(self._YowStack__stackInstances)), lambda i:
+                   same_obj(event_arg("layer.setLayers", i, 0), self._YowStack__stackInstances[i])))
+    ensures(forall(range(0, len(self._YowStack__stackInstances) - 1), lambda i:
+                   same_obj(event_arg("layer.setLayers", i, 1), self._YowStack__stackInstances[i + 1])))
+    ensures(forall(range(1, len(self._YowStack__stackInstances)), lambda i:
+                   same_obj(event_arg("layer.setLayers", i, 2), self._YowStack__stackInstances[i - 1])))
+    ensures(implies(len(self._YowStack__stackInstances) >= 1, event_arg("layer.setLayers", 0, 2) is None
+                    and event_arg("layer.setLayers", len(self._YowStack__stackInstances) - 1, 1) is None))
+
+
+@loop(STACK, "YowStack._construct", 1)
+def construct_loop1(self):
+    invariant(len(self._YowStack__stackInstances) == loop_k() and n_events("layer.setLayers") == 0 and n_events("layer.setStack") == loop_k())
+    invariant(forall(range(0, loop_k()), lambda i: same_obj(event_arg("layer.setStack", i, 0), self._YowStack__stackInstances[i])
+                     and same_obj(event_arg("layer.setStack", i, 1), self)))
+
+
+@loop(STACK, "YowStack._construct", 2)
+def construct_loop2(self):
+    invariant(len(self._YowStack__stackInstances) == len(self._YowStack__stack) and n_events("layer.setLayers") == loop_k())
+    invariant(n_events("layer.setStack") == len(self._YowStack__stack))
+    invariant(forall(range(0, loop_k()), lambda i: same_obj(event_arg("layer.setLayers", i, 0), self._YowStack__stackInstances[i])))
+    invariant(forall(range(0, loop_k()), lambda i: implies(i + 1 < len(self._YowStack__stackInstances),
+                     same_obj(event_arg("layer.setLayers", i, 1), self._YowStack__stackInstances[i + 1]))))
+    invariant(forall(range(0, loop_k()), lambda i: implies(i + 1 >= len(self._YowStack__stackInstances), event_arg("layer.setLayers", i, 1) is None)))
+    invariant(forall(range(1, loop_k()), lambda i: same_obj(event_arg("layer.setLayers", i, 2), self._YowStack__stackInstances[i - 1])))
+    invariant(implies(loop_k() >= 1, event_arg("layer.setLayers", 0, 2) is None))
